@@ -152,6 +152,11 @@ static const char *const T_C04[] = {
 	"slow; C0 | a0 a0 | B0 a0",
 	"slow; N0 | a0 a0 b0 | a0",
 	"slow; C0 | A0 | b0 a0",
+	// suspend/resume around a queued barrier while readers are in flight: the resumed queue must not forget them
+	"slow; C0 | a0 U0 b0 R0",
+	"slow; C0 | a0 U0 b0 R0 | a0 a0",
+	"C0 | a0 U0 b0 R0",
+	"slow; N0 | a0 U0 b0 R0 | a0",
 	0
 };
 QP_HARNESS(h_q04, "q04", "C04", T_C04, 0);
